@@ -243,6 +243,8 @@ func nfFreshNonNil(v ssa.Value, st nfState) bool {
 		if x.Op == token.MUL {
 			return st[nfPath(x)]
 		}
+	case *ssa.Extract:
+		return st["v:"+x.Name()]
 	case *ssa.Call:
 		if cal := x.Common().StaticCallee(); cal != nil && fw.InFq(cal) && len(cal.Blocks) > 0 {
 			return nfNeverReturnsNil(cal, 0)
@@ -330,6 +332,17 @@ func nfEdge(st nfState, p, s *ssa.BasicBlock) {
 		return
 	}
 	g := fw.Guard{Cond: ifi.Cond, True: p.Succs[0] == s}.Normalize()
+	if ex, ok := g.Cond.(*ssa.Extract); ok && ex.Index == 1 && g.True {
+		// `x, ok := v.(*T)` / `x, ok := m[k]`: ok true makes an asserted pointer non-nil (a map may hold nil: only asserts)
+		if ta, ok := ex.Tuple.(*ssa.TypeAssert); ok && ta.CommaOk && ta.Referrers() != nil {
+			for _, rf := range *ta.Referrers() {
+				if e0, ok := rf.(*ssa.Extract); ok && e0.Index == 0 {
+					st["v:"+e0.Name()] = true
+				}
+			}
+		}
+		return
+	}
 	bo, ok := g.Cond.(*ssa.BinOp)
 	if !ok || (bo.Op != token.EQL && bo.Op != token.NEQ) {
 		return
@@ -539,6 +552,9 @@ func nfMaybeNil(v ssa.Value, depth int) bool {
 		if _, ok := x.Tuple.(*ssa.Lookup); ok {
 			return x.Index == 0
 		}
+		if ta, ok := x.Tuple.(*ssa.TypeAssert); ok && ta.CommaOk && x.Index == 0 {
+			return true // the zero value (nil) when the assertion fails
+		}
 		if call, ok := x.Tuple.(*ssa.Call); ok {
 			if cal := call.Common().StaticCallee(); cal != nil && fw.InFq(cal) {
 				idxs, _ := c06NilReturns(cal)
@@ -559,6 +575,8 @@ func nfMaybeNil(v ssa.Value, depth int) bool {
 // nfSources traces v back to loads of pointer fields; at is the block (and optional edge) where the
 // non-nil fact must hold.
 type nfSrc struct {
+	cell bool         // load is a load of a local variable cell that may hold a failed assertion's nil
+	ext  *ssa.Extract // the pointer result of a comma-ok type assertion used directly
 	load *ssa.UnOp
 	pred *ssa.BasicBlock // non-nil: the fact is needed at the end of pred when leaving to succ
 	succ *ssa.BasicBlock
@@ -649,19 +667,62 @@ func nfSources(v ssa.Value, seen map[ssa.Value]bool, pred, succ *ssa.BasicBlock,
 			case *ssa.Alloc, *ssa.FreeVar:
 				// a local variable held in a cell: what was stored into it
 				if nfIsPtrToStruct(x.Type()) {
+					cellNilable := false
 					for _, st := range nfCellStores(c) {
 						nfSources(st.Val, seen, nil, nil, st, out, depth+1)
+						if ex, ok := st.Val.(*ssa.Extract); ok {
+							if ta, ok := ex.Tuple.(*ssa.TypeAssert); ok && ta.CommaOk && ex.Index == 0 {
+								cellNilable = true
+							}
+						}
+					}
+					if cellNilable {
+						// the variable itself may hold the nil of a failed comma-ok assertion
+						*out = append(*out, nfSrc{load: x, pred: pred, succ: succ, at: at, cell: true})
 					}
 				}
 			}
 		}
 	case *ssa.ChangeType:
 		nfSources(x.X, seen, pred, succ, at, out, depth+1)
+	case *ssa.Extract:
+		if ta, ok := x.Tuple.(*ssa.TypeAssert); ok && ta.CommaOk && x.Index == 0 && nfIsPtrToStruct(x.Type()) && at == nil {
+			// (through a variable cell the variable itself is the source, see above)
+			*out = append(*out, nfSrc{ext: x, pred: pred, succ: succ})
+		}
 	case *ssa.Phi:
 		for i, e := range x.Edges {
 			nfSources(e, seen, x.Block().Preds[i], x.Block(), nil, out, depth+1)
 		}
 	}
+}
+
+// pseudo fields name the two other nil sources in reports and keys: the result of a comma-ok type assertion
+// used directly, and a local variable that holds such a result.
+var nfPseudo = map[string]*types.Var{}
+
+func nfPseudoNamed(name string, t types.Type) *types.Var {
+	if v, ok := nfPseudo[name]; ok {
+		return v
+	}
+	v := types.NewVar(token.NoPos, nil, name, t)
+	nfPseudo[name] = v
+	return v
+}
+
+func nfPseudoField(ta *ssa.TypeAssert) *types.Var {
+	return nfPseudoNamed("assert:"+types.TypeString(ta.AssertedType, func(p *types.Package) string { return p.Name() }), ta.AssertedType)
+}
+
+func nfPseudoFieldCell(ld *ssa.UnOp) *types.Var {
+	name := "?"
+	switch c := ld.X.(type) {
+	case *ssa.Alloc:
+		name = c.Comment
+	case *ssa.FreeVar:
+		name = c.Name()
+	}
+	return nfPseudoNamed("var:"+name, ld.Type())
 }
 
 func c06NilFieldSites(p *fw.Program) (sites []nfSite, nilable map[*types.Var][]string, analysed int) {
@@ -716,19 +777,31 @@ func c06NilFieldSites(p *fw.Program) (sites []nfSite, nilable map[*types.Var][]s
 			var srcs []nfSrc
 			nfSources(x, map[ssa.Value]bool{}, nil, nil, nil, &srcs, 0)
 			for _, s := range srcs {
-				fa := s.load.X.(*ssa.FieldAddr)
-				f := nfFieldVar(fa)
-				if f == nil || nilable[f] == nil {
-					continue
+				var f *types.Var
+				var srcV ssa.Value
+				switch {
+				case s.ext != nil:
+					srcV = s.ext
+					f = nfPseudoField(s.ext.Tuple.(*ssa.TypeAssert))
+				case s.cell:
+					srcV = s.load
+					f = nfPseudoFieldCell(s.load)
+				default:
+					fa := s.load.X.(*ssa.FieldAddr)
+					f = nfFieldVar(fa)
+					if f == nil || nilable[f] == nil {
+						continue
+					}
+					srcV = s.load
 				}
 				analysed++
 				c06NilFieldAll = append(c06NilFieldAll, nfSite{fn: fn, ins: ins, field: f})
-				cfn := s.load.Parent()
+				cfn := srcV.(ssa.Instruction).Parent()
 				if flows[cfn] == nil {
 					flows[cfn] = nfCompute(cfn)
 				}
 				fl = flows[cfn]
-				path := nfPath(s.load)
+				path := nfPath(srcV)
 				var st nfState
 				switch {
 				case s.pred != nil:
@@ -738,13 +811,15 @@ func c06NilFieldSites(p *fw.Program) (sites []nfSite, nilable map[*types.Var][]s
 				default:
 					st = fl.at(ins)
 				}
-				if st[path] || st["v:"+s.load.Name()] {
+				if st[path] || st["v:"+srcV.Name()] {
 					continue
 				}
-				if ok, why := nfLift(p, flows, cfn, nfRoot(s.load), nfSuffix(s.load), 0); ok {
-					continue
-				} else {
-					via = why
+				if s.ext == nil {
+					if ok, why := nfLift(p, flows, cfn, nfRoot(srcV), nfSuffix(srcV), 0); ok {
+						continue
+					} else {
+						via = why
+					}
 				}
 				// the load itself happened earlier: a fact about the path at the load point followed by no kill
 				// is covered by the flow; a fact about the loaded value (v:name) is kept by nfEdge
@@ -757,7 +832,8 @@ func c06NilFieldSites(p *fw.Program) (sites []nfSite, nilable map[*types.Var][]s
 
 // exceptions: one construct per line, with a mechanised precondition where possible
 var nilFieldExceptions = map[string]string{
-	"format/tls.decodeTLSPostKeyExchange|dataV": "keyExchange.dataV is d.FieldGet(\"data\") taken directly after d.FieldRawLen(\"data\", ...) added that field to the same struct, so the lookup cannot miss (checked: the only store to the field has that shape)",
+	"(*format/inet/flowsdecoder.Decoder).packet|assert:*layers.IPv4": "library contract: the layer gopacket returns for layers.LayerTypeIPv4 is a *layers.IPv4 (the assertion cannot fail for a non-nil layer, which the enclosing test establishes)",
+	"format/tls.decodeTLSPostKeyExchange|dataV":                      "keyExchange.dataV is d.FieldGet(\"data\") taken directly after d.FieldRawLen(\"data\", ...) added that field to the same struct, so the lookup cannot miss (checked: the only store to the field has that shape)",
 }
 
 var nilFieldExceptionChecks = map[string]func(p *fw.Program) string{
@@ -818,7 +894,7 @@ var nilFieldExceptionChecks = map[string]func(p *fw.Program) string{
 }
 
 func c06NilField(r *fw.Run, p *fw.Program) {
-	ru := r.Rule("C06.nilfield", "for every pointer-to-struct field that decoder code itself treats as possibly nil (a load of it is compared with nil somewhere, or the nil constant / a map lookup / a may-return-nil result is stored into it), every dereference in format/** of a value loaded from that field (field access, load, call of a method that dereferences its receiver; followed through phis) has the field established non-nil on every path to it: a nil test of the same access path whose nil arm does not continue, or a store of a fresh object to that path, inside the function, or at every caller / closure creation site for parameter- and capture-rooted paths (three levels); a store of anything else to the path or a prefix, and a call of a function that stores nil into the field, cancel the fact (the mp4 `trun` without `tfhd` crash: state that one box handler sets and another one uses)", 10)
+	ru := r.Rule("C06.nilfield", "for every pointer-to-struct field that decoder code itself treats as possibly nil (a load of it is compared with nil somewhere, or the nil constant / a map lookup / a may-return-nil result is stored into it), every dereference in format/** of a value loaded from that field (field access, load, call of a method that dereferences its receiver; followed through phis) has the field established non-nil on every path to it: a nil test of the same access path whose nil arm does not continue, or a store of a fresh object to that path, inside the function, or at every caller / closure creation site for parameter- and capture-rooted paths (three levels); a store of anything else to the path or a prefix, and a call of a function that stores nil into the field, cancel the fact (the mp4 `trun` without `tfhd` crash: state that one box handler sets and another one uses); the same for the pointer result of a comma-ok type assertion (`x, _ := v.(*T)`: nil when the assertion fails), used directly or held in a local variable that closures capture: dereferenced only under ok / x != nil", 30)
 	sites, nilable, analysed := c06NilFieldSites(p)
 	r.Notes["C06.nilfield.nilable_fields"] = len(nilable)
 	r.Notes["C06.nilfield.derefs_analysed"] = analysed
@@ -847,7 +923,7 @@ func c06NilField(r *fw.Run, p *fw.Program) {
 				ru.Except(k, p.Rel(b[0].ins.Pos()), reason)
 				continue
 			}
-			ru.Fail(k, p.Rel(b[0].ins.Pos()), fmt.Sprintf("field %s is treated as possibly nil (%s) but %s is dereferenced here without anything establishing it non-nil on this path (%s): a nil-pointer fault on input that skips the setter", s.field.Name(), strings.Join(nilable[s.field][:min(2, len(nilable[s.field]))], "; "), b[0].path, b[0].via))
+			ru.Fail(k, p.Rel(b[0].ins.Pos()), fmt.Sprintf("field %s is treated as possibly nil (%s) but %s is dereferenced here without anything establishing it non-nil on this path (%s): a nil-pointer fault on input that skips the setter", s.field.Name(), nfWhy(nilable, s.field), b[0].path, b[0].via))
 			continue
 		}
 		ru.Ok(k, pos, "every dereference of the possibly-nil field is dominated by a non-nil fact")
@@ -857,6 +933,13 @@ func c06NilField(r *fw.Run, p *fw.Program) {
 			ru.Undecided(k, "", "exception entry matches no construct (anchor moved)")
 		}
 	}
+}
+
+func nfWhy(nilable map[*types.Var][]string, f *types.Var) string {
+	if w := nilable[f]; len(w) > 0 {
+		return strings.Join(w[:min(2, len(w))], "; ")
+	}
+	return "the zero value of a comma-ok type assertion that failed"
 }
 
 var c06NilFieldAll []nfSite
